@@ -3,6 +3,7 @@ package main
 import (
 	"fmt"
 	"go/token"
+	"go/types"
 	"sort"
 	"strings"
 
@@ -625,6 +626,113 @@ func ruleKeepFieldsWalk(c *Ctx, r *Rule) {
 	}
 }
 
+// boolSource: one way a boolean gets its value — a constant chosen under facts, or something else.
+type boolSource struct {
+	isConst bool
+	val     bool
+	facts   []lit
+	pos     token.Pos
+}
+
+// boolSources enumerates how v gets its value when v is a flag variable (φ of constants) or a result
+// of a function literal that is called where it is made (the shape an inlined helper with several
+// returns takes): for every constant source, the unit facts under which it is chosen.
+func (c *Ctx) boolSources(v ssa.Value, depth int) ([]boolSource, bool) {
+	if depth > 3 {
+		return nil, false
+	}
+	switch x := v.(type) {
+	case *ssa.Phi:
+		fn := x.Parent()
+		fi := c.info(fn)
+		c.guards(fn)
+		var out []boolSource
+		seen := map[*ssa.Phi]bool{}
+		var walk func(p *ssa.Phi)
+		walk = func(p *ssa.Phi) {
+			if seen[p] {
+				return
+			}
+			seen[p] = true
+			for i, e := range p.Edges {
+				if q, ok := e.(*ssa.Phi); ok {
+					walk(q)
+					continue
+				}
+				if b, isB := constBool(e); isB {
+					out = append(out, boolSource{true, b, unitLits(c.edgeFacts(fi, p.Block().Preds[i], p.Block())), p.Pos()})
+					continue
+				}
+				out = append(out, boolSource{pos: p.Pos()})
+			}
+		}
+		walk(x)
+		return out, true
+	case *ssa.Extract:
+		call, ok := x.Tuple.(*ssa.Call)
+		if !ok {
+			return nil, false
+		}
+		return c.litResultSources(call, x.Index, depth)
+	case *ssa.Call:
+		if _, isTuple := x.Type().(*types.Tuple); !isTuple {
+			return c.litResultSources(x, 0, depth)
+		}
+	}
+	return nil, false
+}
+
+func (c *Ctx) litResultSources(call *ssa.Call, idx, depth int) ([]boolSource, bool) {
+	var litFn *ssa.Function
+	switch f := call.Call.Value.(type) {
+	case *ssa.MakeClosure:
+		litFn, _ = f.Fn.(*ssa.Function)
+	case *ssa.Function:
+		if f.Parent() != nil {
+			litFn = f
+		}
+	}
+	if litFn == nil || litFn.Parent() != call.Parent() {
+		return nil, false
+	}
+	var out []boolSource
+	for _, ret := range returnsOf(litFn) {
+		res := retResults(ret)
+		if idx >= len(res) {
+			return nil, false
+		}
+		if b, isB := constBool(res[idx]); isB {
+			out = append(out, boolSource{true, b, c.unitGuards(ret), ret.Pos()})
+			continue
+		}
+		if sub, ok := c.boolSources(res[idx], depth+1); ok {
+			g := c.unitGuards(ret)
+			for _, s := range sub {
+				s.facts = append(append([]lit(nil), s.facts...), g...)
+				out = append(out, s)
+			}
+			continue
+		}
+		out = append(out, boolSource{pos: ret.Pos()})
+	}
+	return out, true
+}
+
+// siteIn: the instruction of fn that in belongs to — in itself, or the one call of the literal(s) it sits in.
+func (c *Ctx) siteIn(in ssa.Instruction, fn *ssa.Function) ssa.Instruction {
+	for d := 0; d < 4 && in != nil; d++ {
+		if in.Parent() == fn {
+			return in
+		}
+		sites := c.sitesOf(in.Parent())
+		if len(sites) != 1 {
+			return nil
+		}
+		in = sites[0]
+	}
+	return nil
+}
+
 func ruleParseNestedFields(c *Ctx, r *Rule) {
 	fn := c.Func("cfg", "ParseNestedFields")
 	if fn == nil {
@@ -634,7 +742,11 @@ func ruleParseNestedFields(c *Ctx, r *Rule) {
 	name := c.fnName(fn)
 	// every selector parsed
 	var parse, sortCall, equal *ssa.Call
-	for _, ci := range callsIn(fn) {
+	allCalls := callsIn(fn)
+	for _, a := range allAnon(fn) {
+		allCalls = append(allCalls, callsIn(a)...)
+	}
+	for _, ci := range allCalls {
 		call, ok := ci.(*ssa.Call)
 		if !ok {
 			continue
@@ -659,8 +771,9 @@ func ruleParseNestedFields(c *Ctx, r *Rule) {
 	if sortCall == nil || equal == nil {
 		return
 	}
-	r.Ob(sortCall.Block().Dominates(equal.Block()), name+"|sort-dominates-compare", sortCall.Pos(), "the ordering happens before any comparison")
-	// the result grows only under the 'ok' flag; the flag is lowered only after a prefix match
+	sortSite, equalSite := c.siteIn(sortCall, fn), c.siteIn(equal, fn)
+	r.Ob(sortSite != nil && equalSite != nil && sortSite.Block().Dominates(equalSite.Block()), name+"|sort-dominates-compare", sortCall.Pos(), "the ordering happens before any comparison")
+	// the result grows only under a 'no listed prefix' verdict; the opposite verdict is given only after a prefix match
 	var result *ssa.Call
 	for _, ret := range returnsOf(fn) {
 		res := retResults(ret)
@@ -677,35 +790,37 @@ func ruleParseNestedFields(c *Ctx, r *Rule) {
 		r.Ob(false, name+"|result-appends", fn.Pos(), "the result is built by appending surviving paths")
 		return
 	}
-	var flag *phiWebT
+	// the verdict: a flag variable, or the boolean result of a function literal called in place
+	var srcs []boolSource
+	found := false
 	for _, l := range c.unitGuards(result) {
-		if p, ok := l.v.(*ssa.Phi); ok && l.pol {
-			flag = phiWeb(p)
+		if ss, ok := c.boolSources(l.v, 0); ok && !found {
+			// sources giving the opposite of the surviving polarity drop the path
+			srcs, found = nil, true
+			for _, s := range ss {
+				if !s.isConst || s.val != l.pol {
+					srcs = append(srcs, s)
+				}
+			}
 		}
 	}
-	r.Ob(flag != nil, name+"|append-under-flag", result.Pos(), "a path survives only under its 'no listed prefix' flag")
-	if flag == nil {
+	r.Ob(found, name+"|append-under-flag", result.Pos(), "a path survives only under its 'no listed prefix' flag")
+	if !found {
 		return
 	}
-	fi := c.info(fn)
-	c.guards(fn)
 	nF := 0
-	for p := range flag.phis {
-		for i, e := range p.Edges {
-			b, isB := constBool(e)
-			if !isB || b {
-				continue
-			}
-			nF++
-			r.Inst(1)
-			ok := false
-			for _, l := range unitLits(c.edgeFacts(fi, p.Block().Preds[i], p.Block())) {
+	for _, s := range srcs {
+		nF++
+		r.Inst(1)
+		ok := false
+		if s.isConst {
+			for _, l := range s.facts {
 				if l.v == ssa.Value(equal) && l.pol {
 					ok = true
 				}
 			}
-			r.Ob(ok, fmt.Sprintf("%s|dropped-only-for-listed-prefix#%d", name, nF), p.Pos(), "a path is dropped only when an earlier listed path equals its prefix")
 		}
+		r.Ob(ok, fmt.Sprintf("%s|dropped-only-for-listed-prefix#%d", name, nF), s.pos, "a path is dropped only when an earlier listed path equals its prefix")
 	}
 	r.Ob(nF >= 1, name+"|drops-nested", fn.Pos(), "nested paths are dropped")
 	// the compared prefix: longPath[:len(shortPath)]
